@@ -142,7 +142,7 @@ func VH_C17_pairs() {
 		verifrt.Assert(err == nil, "C17/pair/setup-remove")
 		m.awaiting[2] = false
 	}
-	kind := verifrt.Choose("pair", 3)
+	kind := verifrt.Choose("pair", 4) // 3: the SAME transaction saved by two callers at once
 	if kind == 1 && setup != 0 {
 		return
 	}
@@ -167,10 +167,16 @@ func VH_C17_pairs() {
 			_, e2 = h.RemoveAwaitedTransaction(m.trxs[2].Hash, m.trxs[2].ReceiverAddress)
 		case 2:
 			h.ReadTransactions(reader)
+		case 3:
+			e2 = h.SaveAwaitedTransaction(m.trxs[0])
 		}
 	}()
 	wg.Wait()
-	verifrt.Assert(e1 == nil, "C17/pair/save-succeeds")
+	if kind == 3 {
+		verifrt.Assert((e1 == nil) != (e2 == nil), "C17/pair/duplicate-save-succeeds-exactly-once")
+	} else {
+		verifrt.Assert(e1 == nil, "C17/pair/save-succeeds")
+	}
 	m.awaiting[0] = true
 	switch kind {
 	case 0:
